@@ -372,7 +372,11 @@ def match(subject: p.Expression,
           ) -> Iterator[Mapping[str, p.Expression | ScalarT]]:
     from matchpy import Pattern, match
 
-    from .tofrom import FromMatchpyExpressionMapper, ToMatchpyExpressionMapper
+    from .tofrom import (
+        FromMatchpyExpressionMapper,
+        ToMatchpyExpressionMapper,
+        from_matchpy_substitution,
+    )
 
     if to_matchpy_expr is None:
         to_matchpy_expr = ToMatchpyExpressionMapper()
@@ -384,8 +388,7 @@ def match(subject: p.Expression,
     matches = match(m_subject, m_pattern)
 
     for subst in matches:
-        yield {name: from_matchpy_expr(expr)
-               for name, expr in subst.items()}
+        yield from_matchpy_substitution(subst, from_matchpy_expr)
 
 
 def match_anywhere(subject: p.Expression,
@@ -397,7 +400,11 @@ def match_anywhere(subject: p.Expression,
                                  ]:
     from matchpy import Pattern, match_anywhere
 
-    from .tofrom import FromMatchpyExpressionMapper, ToMatchpyExpressionMapper
+    from .tofrom import (
+        FromMatchpyExpressionMapper,
+        ToMatchpyExpressionMapper,
+        from_matchpy_substitution,
+    )
 
     if to_matchpy_expr is None:
         to_matchpy_expr = ToMatchpyExpressionMapper()
@@ -409,8 +416,7 @@ def match_anywhere(subject: p.Expression,
     matches = match_anywhere(m_subject, m_pattern)
 
     for subst, path in matches:
-        yield ({name: from_matchpy_expr(expr)
-                for name, expr in subst.items()},
+        yield (from_matchpy_substitution(subst, from_matchpy_expr),
                from_matchpy_expr(_get_operand_at_path(m_subject, path)))
 
 
